@@ -225,6 +225,7 @@ def run(F, rep, tier):
                                   "with its previous value, and is used after the loop: only the last component decides" % (nm, bname.split("::")[-1], line), "%s:%s" % (FILE, line))
 
     # ---- R16.5: coerced() trusts Value::type_of; for the composite kinds it must look at every component
+    arity_rule(F, rep, (("is_equivalent", eqv), ("is_conformant", cnf)), helper)
     r5 = rep.rule("R16.5", "Value::type_of derives the type of a list / context from all of its items / entries (a loop or iterator over the components that calls type_of on each)")
     tof = F.hir.get("dmntk_feel::values::Value::type_of")
     if tof is None:
@@ -251,6 +252,19 @@ def run(F, rep, tier):
         for kind in ("List", "Context"):
             if kind not in seen_k:
                 rep.missing_anchor(r5, "arm of Value::type_of for Value::%s" % kind)
+        # the type of the empty list: its element type must be the bottom type Null, so that [] conforms to every list type ("Null conforms to every type" + covariance)
+        flt = hirflow.Flow(tof)
+        for d, cond, line in flt.returns:
+            if not (isinstance(d, tuple) and d and d[0] == "ctor" and isinstance(d[1], str) and d[1].endswith("FeelType::List") and len(d) > 2 and d[2]):
+                continue
+            if not any(hirflow.emptiness(cd)[0] == "empty" for cd in cond if isinstance(cd, tuple) and len(cd) == 3):
+                continue
+            inner = repr(d[2])
+            if "FeelType::Null" in inner and "FeelType::Any" not in inner:
+                rep.ok(r5, "type_of:empty-list", "list<Null>")
+            else:
+                rep.violation(r5, "type_of:empty-list", "the empty list is typed %s (line %s): its element type must be Null, the type that conforms to every type - otherwise [] does not conform to "
+                              "list<T> and is coerced to null" % (describe(d) if False else inner[:80], line), "%s:%s" % (tof["file"], line))
 
     # ---- R16.4
     fl = hirflow.Flow(coe)
@@ -311,6 +325,38 @@ def run(F, rep, tier):
         rep.violation(r4, "coerced:tail", "coerced's fall-through result is not null", FILE)
     else:
         rep.ok(r4, "coerced:tail", "falls through to null")
+
+
+def arity_rule(F, rep, fns, helper):
+    """R16.6: two function types / two context types are related component by component; a positive answer for two function types must be reached only on a
+    path that compared the lengths of both parameter lists (otherwise a function of one parameter conforms to a function of two, and transitivity fails)"""
+    rid = rep.rule("R16.6", "is_equivalent / is_conformant answer true for two function types only on a path that compared the numbers of their parameters")
+    for nm, h in fns:
+        fl = hirflow.Flow(h, inline=helper)
+        verdicts = []
+        for d, cond, line in list(fl.returns) + [(d2, c2, l2) for d2, c2, l2, _ in fl.helper_returns]:
+            if d != ("lit", True):
+                continue
+            kinds = [c for cd in cond for c in cd[1] if isinstance(c, str) and c.startswith(T + "::") and cd[2] is True]
+            if sum(1 for c in kinds if c.endswith("::Function")) < 2:
+                continue
+            ok = False
+            for cd in cond:
+                t = cd[0]
+                if isinstance(t, tuple) and t and t[0] == "bin" and t[1] in ("==", "!=") and cd[2] == (t[1] == "=="):
+                    a, b = repr(t[2]), repr(t[3])
+                    if "len" in a and "len" in b and (("('arg', 0)" in a and "('arg', 1)" in b) or ("('arg', 1)" in a and "('arg', 0)" in b)):
+                        ok = True
+            verdicts.append((ok, line))
+        key = "arity:%s" % nm
+        if not verdicts:
+            rep.undecided(rid, key, "no path of %s answering true for two function types was found" % nm)
+        elif all(ok for ok, _ in verdicts):
+            rep.ok(rid, key, "%d positive path(s), each after len(parameters of self) == len(parameters of other)" % len(verdicts))
+        else:
+            line = [l for ok, l in verdicts if not ok][0]
+            rep.violation(rid, key, "%s answers true for two function types at line %s on a path that never compared the numbers of their parameters: function types of different arity "
+                          "become related (and conformance is no longer transitive)" % (nm, line), "%s:%s" % (FILE, line))
 
 
 def component_of_conds(cond):
